@@ -405,13 +405,20 @@ func commitStampDraws(p *Prog, fi *FuncInfo) (map[*ast.CallExpr]bool, map[*ast.C
 						}
 						if d := singleDef(info, fi.Decl.Body, o); d != nil {
 							rhs = ast.Unparen(d)
+							drawNode = -1 // drawn in the enclosing function, before the callback runs
 						}
 						break
 					}
 					if dc, ok := rhs.(*ast.CallExpr); ok && p.callIs(fi.Pkg, dc, kSeqNext) {
 						res[dc] = true
-						if cf.ReachableAfter(drawNode, setOf([]int{drawNode}), nil) {
-							loop[dc] = true
+						if drawNode >= 0 {
+							if cf.ReachableAfter(drawNode, setOf([]int{drawNode}), nil) {
+								loop[dc] = true
+							}
+						} else {
+							if id := outer.NodeContaining(dc); id >= 0 && id != on.ID && outer.ReachableAfter(id, setOf([]int{id}), nil) {
+								loop[dc] = true
+							}
 						}
 					}
 				}
